@@ -158,6 +158,11 @@ func RunTree(r *vh.Run, rng *vh.RNG, name string, t *chainx.Tree, sched [][]int)
 			c.Op(fmt.Sprintf("rec %d", b.ID), recLine(t, nd, b.ID))
 		}
 		c.Op("minreorg", fmt.Sprint(idOf(t, nd.CM.MinReorgIndex().ID)))
+		if mi := nd.CM.MinReorgIndex(); true {
+			if bi, ok := nd.CM.BestIndex(mi.Height); !ok || bi != mi {
+				c.Oracle("minreorg-not-on-best-chain", "MinReorgIndex() = %v is not an index of the best chain (tip %v)", mi, nd.CM.Tip())
+			}
+		}
 		c.Op("history", historyLine(t, nd))
 		if diverged {
 			return
@@ -240,7 +245,7 @@ func RunTree(r *vh.Run, rng *vh.RNG, name string, t *chainx.Tree, sched [][]int)
 				for fork != 0 && !onBest(t, nd, fork) {
 					fork = t.Blocks[fork].Parent
 				}
-				if t.Blocks[fork].Height >= t.Blocks[minre].Height {
+				if minre >= 0 && t.Blocks[fork].Height >= t.Blocks[minre].Height {
 					c.Oracle("reorg-above-min-reorg-index-failed", "fork point %d (height %d) is at or above MinReorgIndex %d (height %d) but the pruned node answered %s (unpruned: %s)", fork, t.Blocks[fork].Height, minre, t.Blocks[minre].Height, res, tres)
 				}
 				belowForks++
